@@ -4,6 +4,7 @@ import (
 	"bufio"
 	"fmt"
 	"github.com/mmcloughlin/avo/build"
+	"github.com/mmcloughlin/avo/buildtags"
 	"go/ast"
 	"go/constant"
 	"go/importer"
@@ -303,6 +304,7 @@ func c19(c *Ctx) {
 
 	var inclRows []string
 	nInclBad := 0
+	inclShared := printer.NewGoAsm(cfg)
 	inclNeeded := 0
 	for i := 0; i < nFiles; i++ {
 		f := ir.NewFile()
@@ -355,9 +357,18 @@ func c19(c *Ctx) {
 		// change the file's list
 		{
 			wantIncl := append([]string(nil), f.Includes...)
-			for round := 1; round <= 2 && nInclBad < 5; round++ {
-				out, err := printer.NewGoAsm(cfg).Print(f)
+			for round := 1; round <= 3 && nInclBad < 5; round++ {
+				pr := printer.NewGoAsm(cfg)
+				if round == 3 { // by a printer that has just refused another file
+					bad := ir.NewFile()
+					bad.Constraints = buildtags.Constraints{{{"amd64\npurego"}}}
+					pr = inclShared
+					pr.Print(bad)
+				}
+				out, err := pr.Print(f)
 				if err != nil {
+					nInclBad++
+					o.Plan.GoViolations = append(o.Plan.GoViolations, GoViolation{Key: "include:printed", Desc: fmt.Sprintf("includes=%q attrs=%v: print number %d of the file fails: %v (number 3 is by a printer that has just refused another file)", inc, attrs, round, err), Replay: map[string]any{"includes": inc, "attrs": attrs, "print": round}})
 					break
 				}
 				var got []string
